@@ -1,5 +1,6 @@
 from __future__ import annotations
 
+import asyncio
 import logging
 from typing import TYPE_CHECKING, Union
 
@@ -60,6 +61,11 @@ class ZeroconfManager:
         """Close the Zeroconf connection."""
         if not self._created or not self._aiozc:
             return
-        await self._aiozc.async_close()
+        aiozc = self._aiozc
+        # Detach the instance before closing it and shield the close:
+        # if the caller is cancelled or times out while the instance is
+        # closing, it must still be closed and it must not stay attached
+        # to the manager half closed.
         self._aiozc = None
         self._created = False
+        await asyncio.shield(aiozc.async_close())
